@@ -39,9 +39,16 @@ VARIABLE t
 
 Init == t = <<>>
 
-Next == Len(t) < MaxLen /\ \E k \in 1..Len(Alphabet) : t' = Append(t, Alphabet[k])
+Next == \/ Len(t) < MaxLen /\ \E k \in 1..Len(Alphabet) : t' = Append(t, Alphabet[k])
+        \/ Len(t) = MaxLen /\ UNCHANGED t      \* stutter: lets a -simulate walk reach its -depth
 
 Spec == Init /\ [][Next]_t
+
+(* Random walk for `-simulate` (one random symbol per step; see Mutation.tla). *)
+SimNext == \/ Len(t) < MaxLen /\ \E k \in {RandomElement(1..Len(Alphabet))} : t' = Append(t, Alphabet[k])
+           \/ Len(t) = MaxLen /\ UNCHANGED t
+
+SimSpec == Init /\ [][SimNext]_t
 
 Emit == PrintT(<<"REPLAY", ToJson([fam |-> Which, p |-> t])>>)
 =============================================================================
